@@ -1151,8 +1151,9 @@ def e2e_same_srs(ctx, T, grids_defs):
                 ctx.count('e2e:request=' + rkind)
                 if resp.status_int != 200 or not resp.content_type.startswith('image/'):
                     # a refused request is fine only for huge tile counts / outside requests
-                    txt = resp.text[:300] if resp.content_type.startswith(('text', 'application')) else ''
-                    if 'too many tiles' in txt or 'Invalid BBOX' in txt:
+                    full = resp.text if resp.content_type.startswith(('text', 'application')) else ''
+                    txt = full[-300:]
+                    if 'too many tiles' in full or 'Invalid BBOX' in full or 'Request too large' in full:
                         ctx.count('e2e:refused')
                         continue
                     ctx.fail('e2e:error-response', 'status %s %s: %s' % (resp.status, resp.content_type, txt), rep)
